@@ -739,6 +739,97 @@ def rule_act_size(rep, repo):
     rep.fail("R7", unit3, "score-raises", "raises %s" % e, loc=aq.loc(am))
 
 
+def rule_build_sequence(rep, repo):
+  """R10: AutoQKHyperModel.build interpreted for two consecutive trials on
+  one hyper-model (own __init__; quantize_model, the forgiving-factor target
+  and the Keras model are stand-ins).  The target is one object shared by all
+  trials and remembers only the trial it was shown last, so the bonus in a
+  trial's score, and the size its trial-size metric reports, must be the ones
+  computed when THAT trial was built: the score kept for / compiled into
+  trial A is metric x (1 + bonus of A) also after trial B has been built."""
+  from ..pe import ShapeV
+  aq, c, o = hyper(repo, {"Dense": [8, 8, 8]})
+  bm = c.methods.get("build")
+  if bm is None:
+    raise AnalysisError("anchor-missing AutoQKHyperModel.build")
+  unit = "%s::AutoQKHyperModel.build" % aq.relpath
+  rep.unit(unit)
+  loc = aq.loc(bm)
+  fw = Fwd()
+  N = NF.sym
+
+  def S(n):
+    return Tensor(("sym", n), ())
+  for metrics_label, metrics in (
+      ("metric function", [lambda pe, a, k: S("metric")]),
+      ("metrics by head", {"head": [lambda pe, a, k: S("metric")]})):
+    compiled = {}
+    state = {"shown": None}
+
+    def qmodel(tag):
+      return Mock("q_model_" + tag, {
+          "tag": tag, "summary": lambda pe, a, k: None,
+          "compile": lambda pe, a, k, tag=tag: compiled.__setitem__(
+              tag, k.get("metrics")),
+          "get_layer": lambda pe, a, k: Mock("layer", {})})
+    models = [qmodel("A"), qmodel("B")]
+    queue = list(models)
+    target = Mock("target", {
+        "get_reference": lambda pe, a, k: S("size_ref"),
+        "get_trial": lambda pe, a, k: (state.__setitem__(
+            "shown", a[0].attrs["tag"]), S("size_" + a[0].attrs["tag"]))[1],
+        "delta": lambda pe, a, k: S("bonus_" + str(state["shown"])),
+        "get_total_factor": lambda pe, a, k: F(0),
+        "print_stats": lambda pe, a, k: None})
+    lr = Mock("lr", {"numpy": lambda pe, a, k: F(1, 100)})
+    model = Mock("model", {"optimizer": Mock("optimizer", {
+        "lr": lr, "learning_rate": lr}), "loss": "mse"})
+    pe = PE(repo, module_overrides={AQ: {
+        "print_qmodel_summary": lambda pe_, a, k: None}})
+    pe.opaque_ext = True
+    o.attrs.update({
+        "target": target, "model": model, "metrics": metrics,
+        "head_name": None, "learning_rate_optimizer": False,
+        "frozen_layers": [], "extend_model_metrics": True,
+        "quantize_model": lambda pe_, a, k: (queue.pop(0), None)})
+    cfg = "build(trial A) then build(trial B), %s" % metrics_label
+    try:
+      scores = []
+      for _ in range(2):
+        pe.call(pe.getattr(o, "build"), [Mock("hp", {})], {})
+        scores.append(o.attrs.get("score"))
+      yt = Mock("y_true", {"shape": ShapeV((None, 10))})
+      yp = Mock("y_pred", {"shape": ShapeV((None, 10))})
+      for tag, sc in zip("AB", scores):
+        want = N("metric") * (1 + N("bonus_" + tag))
+        got = fw(pe.call(sc, [yt, yp], {}).term)
+        rep.check(got == want, "R10", unit, "score-of-another-trial",
+                  "%s: the score kept for trial %s evaluates to %s after "
+                  "both builds, expected %s" % (cfg, tag, show(got),
+                                                show(want)), loc=loc,
+                  instance="%s/score of %s" % (cfg, tag),
+                  observed=show(got))
+        mets = compiled.get(tag)
+        if isinstance(mets, dict):
+          mets = mets.get("head")
+        fns = [m for m in (mets or []) if isinstance(m, Func)]
+        vals = []
+        for m in fns:
+          r = pe.call(m, [yt, yp], {})
+          vals.append(fw(pe.as_term(r)))
+        rep.check(want in vals and N("size_" + tag) in vals, "R10", unit,
+                  "compiled-metrics-of-another-trial",
+                  "%s: the metrics compiled into trial %s evaluate to %s; "
+                  "expected its own score %s and size %s among them" % (
+                      cfg, tag, [show(v) for v in vals], show(want),
+                      "size_" + tag), loc=loc,
+                  instance="%s/compiled metrics of %s" % (cfg, tag),
+                  observed=str(sorted(show(v) for v in vals)))
+    except PyRaise as e:
+      rep.fail("R10", unit, "build-raises", "%s raises %s" % (cfg, e),
+               loc=loc, instance=cfg)
+
+
 def rule_adjust_limit(rep, repo):
   """R1 (limit completion): a short per-class limit list is completed from
   the default limit role by role - kernel, bias, [recurrent kernel for
@@ -929,6 +1020,8 @@ def run(rep, repo, tier):
   rep.require_instances("R8", 10)
   rule_reference_cache(rep, repo)
   rep.require_instances("R9", 5)
+  rule_build_sequence(rep, repo)
+  rep.require_instances("R10", 8)
   rep.require_instances("R1", 8)
   rep.require_instances("R2", 18)
   rep.require_instances("R3", 4)
